@@ -251,17 +251,20 @@ def run(tier: str, seed: int) -> Result:
     # the application's stop callback starts the next session at once (before it first suspends), as a reconnect manager does: the
     # session so started has its own callback, which must be the one invoked when *it* ends
     cl_seeds_rec = [("start", "tcp_ok", "finish", "hello", "eof"), ("start", "tcp_ok", "finish", "hello", "DR"), ("connect", "tcp_ok", "hello", "eof")]
+    # an earlier session's stop callback is slow (still running as a background task of the client during the next session)
+    cl_seeds_slow = [("start", "tcp_ok", "finish", "hello", "eof", "start", "tcp_ok", "finish", "hello")]
     client_execs = 0
-    for i, sd in enumerate(cl_seeds + cl_seeds_rec):
-        rec = i >= len(cl_seeds)
+    for i, sd in enumerate(cl_seeds + cl_seeds_rec + cl_seeds_slow):
+        rec = len(cl_seeds) <= i < len(cl_seeds) + len(cl_seeds_rec)
+        slow = i >= len(cl_seeds) + len(cl_seeds_rec)
         depth, bound = (3, 1) if tier == "quick" else (5, 2)
-        st = explore_parallel(c19.factory, (sd, True, rec), depth=depth, bound=bound, budget_s=60.0 if tier == "quick" else 600.0, split_depth=1)
+        st = explore_parallel(c19.factory, (sd, True, rec, slow), depth=depth, bound=bound, budget_s=60.0 if tier == "quick" else 600.0, split_depth=1)
         client_execs += st.executions
-        per_cfg.append({"level": "APIClient", "seed": list(sd), "stop_callback_reconnects_immediately": rec, "depth": depth, "deviation_bound": bound, "executions": st.executions,
+        per_cfg.append({"level": "APIClient", "seed": list(sd), "stop_callback_reconnects_immediately": rec, "stop_callback_slow": slow, "depth": depth, "deviation_bound": bound, "executions": st.executions,
                         "states": st.states, "transitions": st.transitions, "time_capped": st.time_capped})
         for v in st.violations:
             clause = v["violated"][0]
-            res.add("client:" + ":".join(clause.split(":")[:3])[:80], clause, {"harness": "c19-client", "seed": list(sd), "c07": True, "reconnect": rec,
+            res.add("client:" + ":".join(clause.split(":")[:3])[:80], clause, {"harness": "c19-client", "seed": list(sd), "c07": True, "reconnect": rec, "slow_stop": slow,
                                                                               "choices": v["choices"], "violated": v["violated"], "observations": v["observations"]})
         total.time_capped = total.time_capped or st.time_capped
         total.executions += st.executions
